@@ -41,6 +41,12 @@ end
 @[simp] theorem allLines_line (q : Str → Bool) (l : PreLine) : (Node.line l).allLines q = q l.content := by simp [Node.allLines]
 @[simp] theorem allLines_block (q : Str → Bool) (b : List Node) : (Node.block b).allLines q = allLinesL q b := by simp [Node.allLines]
 
+/-- a property of the context that every child stack inherits (the options, for instance) -/
+class CtxInv (C : Ctx → Prop) : Prop where
+  child : ∀ ctx pos file, C ctx → C (Ctx.child ctx pos file)
+
+instance : CtxInv (fun _ => True) := ⟨fun _ _ _ _ => trivial⟩
+
 /-- the code and the output lines inside a result value -/
 class Carries (α : Type) where
   codes : α → List (List Node)
@@ -79,7 +85,7 @@ structure HG (q : Str → Bool → Bool) (P : Str → Prop) {α : Type} [Carries
   codes : ∀ a, r = .ok a → ∀ c ∈ Carries.codes a, allCmdsL q c = true
   outs : ∀ a, r = .ok a → ∀ l ∈ Carries.outs a, P l
 
-variable {q : Str → Bool → Bool} {P : Str → Prop} {α β : Type} [Carries α] [Carries β]
+variable {q : Str → Bool → Bool} {P : Str → Prop} {C : Ctx → Prop} [CtxInv C] {α β : Type} [Carries α] [Carries β]
 
 theorem HG.err (e : ErrInfo) : HG q P (.err e : R α) :=
   ⟨fun _ h => (by cases h), fun _ h => (by cases h), fun _ h => (by cases h)⟩
@@ -118,15 +124,15 @@ theorem HG.evalIn (ctx : Ctx) (pos : Pos) (st : St) (s : Str) : HG q P (Duckling
   HG.liftO _ _ _ _ (fun x => evalSafe _ _ x) (fun _ => rfl) (fun _ => rfl)
 
 /-- a child executor that keeps the invariants -/
-def ChildHG (q : Str → Bool → Bool) (P : Str → Prop) (c : Option ChildFn) : Prop :=
-  ∀ run, c = some run → ∀ code ctx st, allCmdsL q code = true → StOk q st → FSOk q ctx.fs → HG q P (run code ctx st)
+def ChildHG (q : Str → Bool → Bool) (P : Str → Prop) (C : Ctx → Prop) (c : Option ChildFn) : Prop :=
+  ∀ run, c = some run → ∀ code ctx st, C ctx → allCmdsL q code = true → StOk q st → FSOk q ctx.fs → HG q P (run code ctx st)
 
-theorem HG.runChild {c : Option ChildFn} (hc : ChildHG q P c) (ctx : Ctx) (pos : Pos) (st : St) (code : List Node)
-    (file : Option Path) (cst : St) (hcode : allCmdsL q code = true) (hcst : StOk q cst) (hfs : FSOk q ctx.fs) :
+theorem HG.runChild {c : Option ChildFn} (hc : ChildHG q P C c) (ctx : Ctx) (pos : Pos) (st : St) (code : List Node)
+    (file : Option Path) (cst : St) (hcode : allCmdsL q code = true) (hcst : StOk q cst) (hfs : FSOk q ctx.fs) (hC : C ctx) :
     HG q P (Duckling.runChild c ctx pos st code file cst) := by
   cases c with
   | none => exact HG.overflow _ _ _
-  | some run => exact hc run rfl code _ cst hcode hcst hfs
+  | some run => exact hc run rfl code _ cst (CtxInv.child _ _ _ hC) hcode hcst hfs
 
 theorem HG.guardChild {c : Option ChildFn} (ctx : Ctx) (pos : Pos) (st : St) (k : R α) (hk : HG q P k) :
     HG q P (Duckling.guardChild c ctx pos st k) := by
@@ -233,7 +239,7 @@ end Duckling
 
 namespace Duckling
 
-variable {q : Str → Bool → Bool} {P : Str → Prop} {α β : Type} [Carries α] [Carries β]
+variable {q : Str → Bool → Bool} {P : Str → Prop} {C : Ctx → Prop} [CtxInv C] {α β : Type} [Carries α] [Carries β]
 
 /-- the code part and the output part can be shown separately -/
 theorem HG.withOuts {r : R α} (h : HG q (fun _ => True) r) (ho : ∀ a, r = .ok a → ∀ l ∈ Carries.outs a, P l) : HG q P r :=
@@ -293,14 +299,14 @@ theorem HG.runPost (ctx : Ctx) (pos : Pos) (st : St) (r : Out) (hs : StOk q st) 
   · hg_triv
   · exact HG.okSt _ _ rfl (StOk.leave false hs hr) ho
 
-theorem HG.runRun {c : Option ChildFn} (hc : ChildHG q P c) (ctx : Ctx) (pos : Pos) (a : Arg) (st : St) (hs : StOk q st)
-    (hfs : FSOk q ctx.fs) : HG q P (Duckling.runRun c ctx pos a st) := by
+theorem HG.runRun {c : Option ChildFn} (hc : ChildHG q P C c) (ctx : Ctx) (pos : Pos) (a : Arg) (st : St) (hs : StOk q st)
+    (hfs : FSOk q ctx.fs) (hC : C ctx) : HG q P (Duckling.runRun c ctx pos a st) := by
   unfold Duckling.runRun
   apply HG.bind (HG.runPre _ _ _ _ hs)
   intro p _ hcodes _
   have hcode : allCmdsL q p.1.code = true := hcodes _ (by simp [Carries.codes])
   have hst : StOk q p.2 := fun c hc => hcodes c (by simp only [Carries.codes, List.mem_cons]; exact Or.inr hc)
-  apply HG.bind (HG.runChild hc _ _ _ _ _ _ hcode hst hfs)
+  apply HG.bind (HG.runChild hc _ _ _ _ _ _ hcode hst hfs hC)
   intro r _ hrc hro
   exact HG.runPost _ _ _ _ hs hrc hro
 
@@ -336,13 +342,13 @@ theorem HG.startPost (name : Str) (st : St) (r : Out) (hs : StOk q st) (hr : StO
   · exact HG.okSt _ _ rfl (StOk.leave _ hs (hr.startBaseWarn _)) (by intro l hl; simp [Carries.outs] at hl)
   · exact HG.okSt _ _ rfl (StOk.leave _ hs (hr.startBaseWarn _)) ho
 
-theorem HG.runStart {c : Option ChildFn} (hc : ChildHG q P c) (ctx : Ctx) (pos : Pos) (name : Str) (a : Arg) (st : St)
-    (hs : StOk q st) (hfs : FSOk q ctx.fs) : HG q P (Duckling.runStart c ctx pos name a st) := by
+theorem HG.runStart {c : Option ChildFn} (hc : ChildHG q P C c) (ctx : Ctx) (pos : Pos) (name : Str) (a : Arg) (st : St)
+    (hs : StOk q st) (hfs : FSOk q ctx.fs) (hC : C ctx) : HG q P (Duckling.runStart c ctx pos name a st) := by
   unfold Duckling.runStart
   apply HG.bind (HG.loadImport _ _ _ _ hfs)
   intro p _ hcodes _
   have hcode : allCmdsL q p.2 = true := hcodes _ (by simp [Carries.codes])
-  apply HG.bind (HG.runChild hc _ _ _ _ _ _ hcode hs.enterSt hfs)
+  apply HG.bind (HG.runChild hc _ _ _ _ _ _ hcode hs.enterSt hfs hC)
   intro r _ hrc hro
   exact HG.startPost _ _ _ hs hrc hro
 
@@ -350,7 +356,7 @@ end Duckling
 
 namespace Duckling
 
-variable {q : Str → Bool → Bool} {P : Str → Prop} {α β : Type} [Carries α] [Carries β]
+variable {q : Str → Bool → Bool} {P : Str → Prop} {C : Ctx → Prop} [CtxInv C] {α β : Type} [Carries α] [Carries β]
 
 theorem HG.defaultEmit (name : Str) (a : Option Arg) : HG q P (Duckling.defaultEmit name a) := by
   unfold Duckling.defaultEmit
@@ -428,8 +434,8 @@ theorem HG.runCompileLocal (ctx : Ctx) (c : ClsDesc) (name : Str) (line : Nat) (
             · exact HG.okOf _ (StOk.of_funcs_eq (st := st) rfl hs) (fun _ _ => trivial)
         · hg_triv
 
-theorem HG.runCompile {c : Option ChildFn} (hc : ChildHG q P c) (ctx : Ctx) (cl : ClsDesc) (name : Str) (line : Nat)
-    (a : Option Arg) (st : St) (hs : StOk q st) (hfs : FSOk q ctx.fs)
+theorem HG.runCompile {c : Option ChildFn} (hc : ChildHG q P C c) (ctx : Ctx) (cl : ClsDesc) (name : Str) (line : Nat)
+    (a : Option Arg) (st : St) (hs : StOk q st) (hfs : FSOk q ctx.fs) (hC : C ctx)
     (hemit : (hasHook cl "run_compile" && cl.cname == "Run") = false → (hasHook cl "run_compile" && cl.cname == "Start") = false →
       ∀ rc, Duckling.runCompileLocal ctx cl name line a st = .ok rc → ∀ l ∈ rc.out, P l) :
     HG q P (Duckling.runCompile c ctx cl name line a st) := by
@@ -437,17 +443,17 @@ theorem HG.runCompile {c : Option ChildFn} (hc : ChildHG q P c) (ctx : Ctx) (cl 
   split
   · split
     · hg_triv
-    · exact HG.runRun hc _ _ _ _ hs hfs
+    · exact HG.runRun hc _ _ _ _ hs hfs hC
   · rename_i hnr
     split
     · split
       · hg_triv
-      · exact HG.runStart hc _ _ _ _ _ hs hfs
+      · exact HG.runStart hc _ _ _ _ _ hs hfs hC
     · rename_i hns
       exact HG.runCompileLocal _ _ _ _ _ _ hs (hemit (by simpa using hnr) (by simpa using hns))
 
-theorem HG.multiComp {c : Option ChildFn} (hc : ChildHG q P c) (ctx : Ctx) (cl : ClsDesc) (name : Str) (line : Nat)
-    (items : List (Option Arg)) (st : St) (out : List Str) (sig : Sig) (hs : StOk q st) (hfs : FSOk q ctx.fs)
+theorem HG.multiComp {c : Option ChildFn} (hc : ChildHG q P C c) (ctx : Ctx) (cl : ClsDesc) (name : Str) (line : Nat)
+    (items : List (Option Arg)) (st : St) (out : List Str) (sig : Sig) (hs : StOk q st) (hfs : FSOk q ctx.fs) (hC : C ctx)
     (hout : ∀ l ∈ out, P l)
     (hemit : (hasHook cl "run_compile" && cl.cname == "Run") = false → (hasHook cl "run_compile" && cl.cname == "Start") = false →
       ∀ a ∈ items, ∀ st2 rc, Duckling.runCompileLocal ctx cl name line a st2 = .ok rc → ∀ l ∈ rc.out, P l) :
@@ -456,7 +462,7 @@ theorem HG.multiComp {c : Option ChildFn} (hc : ChildHG q P c) (ctx : Ctx) (cl :
   | nil => exact HG.okSt _ _ rfl hs hout
   | cons a rest ih =>
     unfold Duckling.multiComp
-    apply HG.bind (HG.runCompile hc _ _ _ _ _ _ hs hfs (fun h1 h2 => hemit h1 h2 a List.mem_cons_self st))
+    apply HG.bind (HG.runCompile hc _ _ _ _ _ _ hs hfs hC (fun h1 h2 => hemit h1 h2 a List.mem_cons_self st))
     intro r _ hrc hro
     apply ih _ _ _ hrc
     · intro l hl
@@ -469,7 +475,7 @@ end Duckling
 
 namespace Duckling
 
-variable {q : Str → Bool → Bool} {P : Str → Prop} {α β : Type} [Carries α] [Carries β]
+variable {q : Str → Bool → Bool} {P : Str → Prop} {C : Ctx → Prop} [CtxInv C] {α β : Type} [Carries α] [Carries β]
 
 theorem HG.evaluateArgs (ctx : Ctx) (line : Nat) (st : St) (b : Bool) (args : List Arg) :
     HG q P (Duckling.evaluateArgs ctx line st b args) := by
@@ -556,8 +562,8 @@ theorem HG.simplePre (ctx : Ctx) (c : ClsDesc) (word : Str) (line : Nat) (arg : 
 
 /-- a simple command: what its own `run_compile` calls emit is the caller's business (`hemit`, stated on the items a
     successful `simplePre` hands over) -/
-theorem HG.compileSimple {c : Option ChildFn} (hc : ChildHG q P c) (ctx : Ctx) (cl : ClsDesc) (word : Str) (line : Nat)
-    (arg : Option Str) (block : Option (List Node)) (st : St) (hs : StOk q st) (hfs : FSOk q ctx.fs)
+theorem HG.compileSimple {c : Option ChildFn} (hc : ChildHG q P C c) (ctx : Ctx) (cl : ClsDesc) (word : Str) (line : Nat)
+    (arg : Option Str) (block : Option (List Node)) (st : St) (hs : StOk q st) (hfs : FSOk q ctx.fs) (hC : C ctx)
     (hemit : (hasHook cl "run_compile" && cl.cname == "Run") = false → (hasHook cl "run_compile" && cl.cname == "Start") = false →
       ∀ name items st', Duckling.simplePre ctx cl word line arg block st = .ok (name, items, st') →
       ∀ a ∈ items, ∀ st2 rc, Duckling.runCompileLocal ctx cl name line a st2 = .ok rc → ∀ l ∈ rc.out, P l) :
@@ -566,7 +572,7 @@ theorem HG.compileSimple {c : Option ChildFn} (hc : ChildHG q P c) (ctx : Ctx) (
   apply HG.bind (HG.simplePre _ _ _ _ _ _ _ hs)
   intro p hp hpc _
   obtain ⟨name, items, st'⟩ := p
-  exact HG.multiComp hc _ _ _ _ _ _ _ _ hpc hfs (by intro l hl; cases hl) (fun h1 h2 => hemit h1 h2 name items st' hp)
+  exact HG.multiComp hc _ _ _ _ _ _ _ _ hpc hfs hC (by intro l hl; cases hl) (fun h1 h2 => hemit h1 h2 name items st' hp)
 
 theorem HG.tokenizeCount (ctx : Ctx) (pos : Pos) (st : St) (s : Str) : HG q P (Duckling.tokenizeCount ctx pos st s) := by
   unfold Duckling.tokenizeCount
@@ -586,8 +592,8 @@ theorem HG.bindCounter (ctx : Ctx) (pos : Pos) (st : St) (var : Option Str) (n :
     · hg_triv
     · exact HG.okSt _ _ rfl (StOk.of_funcs_eq (st := cst) rfl hcs) (by intro l hl; cases hl)
 
-theorem HG.repeatLoop {c : Option ChildFn} (hc : ChildHG q P c) (ctx : Ctx) (pos : Pos) (var : Option Str) (ce : Str)
-    (body : List Node) (budget count : Nat) (st : St) (out : List Str) (hs : StOk q st) (hfs : FSOk q ctx.fs)
+theorem HG.repeatLoop {c : Option ChildFn} (hc : ChildHG q P C c) (ctx : Ctx) (pos : Pos) (var : Option Str) (ce : Str)
+    (body : List Node) (budget count : Nat) (st : St) (out : List Str) (hs : StOk q st) (hfs : FSOk q ctx.fs) (hC : C ctx)
     (hbody : allCmdsL q body = true) (hout : ∀ l ∈ out, P l) :
     HG q P (Duckling.repeatLoop c ctx pos var ce body budget count st out) := by
   induction budget generalizing count st out with
@@ -601,7 +607,7 @@ theorem HG.repeatLoop {c : Option ChildFn} (hc : ChildHG q P c) (ctx : Ctx) (pos
     · apply HG.guardChild
       apply HG.bind (HG.bindCounter _ _ _ _ _ _ hs.enterSt)
       intro cst _ hcst _
-      apply HG.bind (HG.runChild hc _ _ _ _ _ _ hbody hcst hfs)
+      apply HG.bind (HG.runChild hc _ _ _ _ _ _ hbody hcst hfs hC)
       intro r _ hrc hro
       have hout' : ∀ l ∈ out ++ r.out, P l := by
         intro l hl; rcases List.mem_append.mp hl with h | h; exact hout l h; exact hro l h
@@ -617,8 +623,8 @@ theorem HG.repeatLoop {c : Option ChildFn} (hc : ChildHG q P c) (ctx : Ctx) (pos
         subst h1; subst h2
         exact ih _ _ _ (StOk.leave false hs hrc) hout'
 
-theorem HG.whileLoop {c : Option ChildFn} (hc : ChildHG q P c) (ctx : Ctx) (pos : Pos) (var : Option Str) (cond : Str)
-    (body : List Node) (budget count : Nat) (st : St) (out : List Str) (hs : StOk q st) (hfs : FSOk q ctx.fs)
+theorem HG.whileLoop {c : Option ChildFn} (hc : ChildHG q P C c) (ctx : Ctx) (pos : Pos) (var : Option Str) (cond : Str)
+    (body : List Node) (budget count : Nat) (st : St) (out : List Str) (hs : StOk q st) (hfs : FSOk q ctx.fs) (hC : C ctx)
     (hbody : allCmdsL q body = true) (hout : ∀ l ∈ out, P l) :
     HG q P (Duckling.whileLoop c ctx pos var cond body budget count st out) := by
   induction budget generalizing count st out with
@@ -632,7 +638,7 @@ theorem HG.whileLoop {c : Option ChildFn} (hc : ChildHG q P c) (ctx : Ctx) (pos 
     intro cv _ _ _
     split
     · exact HG.okSt _ _ rfl (StOk.leave false hs hcst) hout
-    · apply HG.bind (HG.runChild hc _ _ _ _ _ _ hbody hcst hfs)
+    · apply HG.bind (HG.runChild hc _ _ _ _ _ _ hbody hcst hfs hC)
       intro r _ hrc hro
       have hout' : ∀ l ∈ out ++ r.out, P l := by
         intro l hl; rcases List.mem_append.mp hl with h | h; exact hout l h; exact hro l h
@@ -652,7 +658,7 @@ end Duckling
 
 namespace Duckling
 
-variable {q : Str → Bool → Bool} {P : Str → Prop} {α β : Type} [Carries α] [Carries β]
+variable {q : Str → Bool → Bool} {P : Str → Prop} {C : Ctx → Prop} [CtxInv C] {α β : Type} [Carries α] [Carries β]
 
 theorem HG.ifCond (ctx : Ctx) (pos : Pos) (name : Str) (arg : Option Str) (st : St) : HG q P (Duckling.ifCond ctx pos name arg st) := by
   unfold Duckling.ifCond
@@ -727,8 +733,8 @@ theorem HG.blockPre (ctx : Ctx) (c : ClsDesc) (word : Str) (line : Nat) (arg : O
     | exact HG.repeatPre _ _ _ _ _ hs
     | exact HG.okOf _ hs (fun _ _ => trivial)
 
-theorem HG.runBlockAct {c : Option ChildFn} (hc : ChildHG q P c) (ctx : Ctx) (pos : Pos) (block : List Node) (act : BlockAct)
-    (hfs : FSOk q ctx.fs) (hblock : allCmdsL q block = true)
+theorem HG.runBlockAct {c : Option ChildFn} (hc : ChildHG q P C c) (ctx : Ctx) (pos : Pos) (block : List Node) (act : BlockAct)
+    (hfs : FSOk q ctx.fs) (hC : C ctx) (hblock : allCmdsL q block = true)
     (hact : ∀ c ∈ Carries.codes act, allCmdsL q c = true) (hout : ∀ l ∈ Carries.outs act, P l) :
     HG q P (Duckling.runBlockAct c ctx pos block act) := by
   cases act with
@@ -736,14 +742,14 @@ theorem HG.runBlockAct {c : Option ChildFn} (hc : ChildHG q P c) (ctx : Ctx) (po
   | body st =>
     have hs : StOk q st := hact
     unfold Duckling.runBlockAct
-    apply HG.bind (HG.runChild hc _ _ _ _ _ _ hblock hs.enterSt hfs)
+    apply HG.bind (HG.runChild hc _ _ _ _ _ _ hblock hs.enterSt hfs hC)
     intro r _ hrc hro
     exact HG.okSt _ _ rfl (StOk.leave false hs hrc) hro
-  | «repeat» var ce st => exact HG.repeatLoop hc _ _ _ _ _ _ _ _ _ hact hfs hblock (by intro l hl; cases hl)
-  | «while» var cond st => exact HG.whileLoop hc _ _ _ _ _ _ _ _ _ hact hfs hblock (by intro l hl; cases hl)
+  | «repeat» var ce st => exact HG.repeatLoop hc _ _ _ _ _ _ _ _ _ hact hfs hC hblock (by intro l hl; cases hl)
+  | «while» var cond st => exact HG.whileLoop hc _ _ _ _ _ _ _ _ _ hact hfs hC hblock (by intro l hl; cases hl)
 
-theorem HG.compileBlock {c : Option ChildFn} (hc : ChildHG q P c) (ctx : Ctx) (cl : ClsDesc) (word : Str) (line : Nat)
-    (arg : Option Str) (block : List Node) (hb : Bool) (st : St) (hs : StOk q st) (hfs : FSOk q ctx.fs)
+theorem HG.compileBlock {c : Option ChildFn} (hc : ChildHG q P C c) (ctx : Ctx) (cl : ClsDesc) (word : Str) (line : Nat)
+    (arg : Option Str) (block : List Node) (hb : Bool) (st : St) (hs : StOk q st) (hfs : FSOk q ctx.fs) (hC : C ctx)
     (hblock : allCmdsL q block = true)
     (hdone : ∀ o, Duckling.blockPre ctx cl word line arg block hb st = .ok (.done o) → ∀ l ∈ o.out, P l) :
     HG q P (Duckling.compileBlock c ctx cl word line arg block hb st) := by
@@ -758,25 +764,25 @@ theorem HG.compileBlock {c : Option ChildFn} (hc : ChildHG q P c) (ctx : Ctx) (c
     | «while» _ _ _ => cases hl
   apply HG.bind hpre
   intro act _ hcodes houts
-  exact HG.runBlockAct hc _ _ _ _ hfs hblock hcodes houts
+  exact HG.runBlockAct hc _ _ _ _ hfs hC hblock hcodes houts
 
 /-- what the instance has to provide: `q` excludes blank lines; the lines a simple command emits itself and the lines a
     block command emits without running a body satisfy `P` -/
-structure HSpec (q : Str → Bool → Bool) (P : Str → Prop) : Prop where
+structure HSpec (q : Str → Bool → Bool) (P : Str → Prop) (C : Ctx → Prop) : Prop where
   nonblank : ∀ s hb, q s hb = true → splitWs1 s ≠ none
-  emit : ∀ (ctx : Ctx) (content word : Str) (arg : Option Str) (block : Option (List Node)) (cl : ClsDesc),
+  emit : ∀ (ctx : Ctx) (content word : Str) (arg : Option Str) (block : Option (List Node)) (cl : ClsDesc), C ctx →
       q content (hasBlockOf block) = true → splitWs1 content = some (word, arg) →
       ((dispatch word (hasBlockOf block) = some cl ∧ cl.isBlock = false) ∨
        (dispatch word (hasBlockOf block) = none ∧ cl = Generated.generic)) →
       (hasHook cl "run_compile" && cl.cname == "Run") = false → (hasHook cl "run_compile" && cl.cname == "Start") = false →
       ∀ line st name items st', simplePre ctx cl word line arg block st = .ok (name, items, st') →
       ∀ a ∈ items, ∀ st2 rc, runCompileLocal ctx cl name line a st2 = .ok rc → ∀ l ∈ rc.out, P l
-  blockDone : ∀ (ctx : Ctx) (content word : Str) (arg : Option Str) (block : Option (List Node)) (cl : ClsDesc),
+  blockDone : ∀ (ctx : Ctx) (content word : Str) (arg : Option Str) (block : Option (List Node)) (cl : ClsDesc), C ctx →
       q content (hasBlockOf block) = true → splitWs1 content = some (word, arg) → dispatch word (hasBlockOf block) = some cl → cl.isBlock = true →
       ∀ line st o, blockPre ctx cl word line arg (block.getD []) (hasBlockOf block) st = .ok (.done o) → ∀ l ∈ o.out, P l
 
-theorem HG.stepCmd (S : HSpec q P) {c : Option ChildFn} (hc : ChildHG q P c) (ctx : Ctx) (l : PreLine) (block : Option (List Node))
-    (st : St) (hs : StOk q st) (hfs : FSOk q ctx.fs) (hq : q l.content (hasBlockOf block) = true)
+theorem HG.stepCmd (S : HSpec q P C) {c : Option ChildFn} (hc : ChildHG q P C c) (ctx : Ctx) (l : PreLine) (block : Option (List Node))
+    (st : St) (hs : StOk q st) (hfs : FSOk q ctx.fs) (hC : C ctx) (hq : q l.content (hasBlockOf block) = true)
     (hblock : allCmdsL q (block.getD []) = true) : HG q P (Duckling.stepCmd c ctx l block st) := by
   unfold Duckling.stepCmd
   split
@@ -787,20 +793,20 @@ theorem HG.stepCmd (S : HSpec q P) {c : Option ChildFn} (hc : ChildHG q P c) (ct
     · rename_i cl hd
       split
       · rename_i hb
-        exact HG.compileBlock hc _ _ _ _ _ _ _ _ hs hfs hblock (S.blockDone ctx _ _ _ block cl hq hsplit hd hb _ _)
+        exact HG.compileBlock hc _ _ _ _ _ _ _ _ hs hfs hC hblock (S.blockDone ctx _ _ _ block cl hC hq hsplit hd hb _ _)
       · rename_i hb
         have hb' : cl.isBlock = false := by simpa using hb
-        refine HG.compileSimple hc _ _ _ _ _ _ _ hs hfs ?_
+        refine HG.compileSimple hc _ _ _ _ _ _ _ hs hfs hC ?_
         intro h1 h2 name items st' hpre
-        exact S.emit ctx _ _ _ block cl hq hsplit (Or.inl ⟨hd, hb'⟩) h1 h2 _ _ name items st' hpre
+        exact S.emit ctx _ _ _ block cl hC hq hsplit (Or.inl ⟨hd, hb'⟩) h1 h2 _ _ name items st' hpre
     · rename_i hd
       have hst : StOk q (if ctx.opts.suppress = true then st else Duckling.addWarn st ⟨.notExist l.num, some (ctx.trace ⟨l.num, none⟩)⟩) := by
         split
         · exact hs
         · exact hs.addWarn _
-      refine HG.compileSimple hc _ _ _ _ _ _ _ hst hfs ?_
+      refine HG.compileSimple hc _ _ _ _ _ _ _ hst hfs hC ?_
       intro h1 h2 name items st' hpre
-      exact S.emit ctx _ _ _ block Generated.generic hq hsplit (Or.inr ⟨hd, rfl⟩) h1 h2 _ _ name items st' hpre
+      exact S.emit ctx _ _ _ block Generated.generic hC hq hsplit (Or.inr ⟨hd, rfl⟩) h1 h2 _ _ name items st' hpre
 
 theorem allCmdsL_nextBlock (rest : List Node) (h : allCmdsL q rest = true) : allCmdsL q ((nextBlock rest).getD []) = true := by
   cases rest with
@@ -812,8 +818,8 @@ theorem allCmdsL_nextBlock (rest : List Node) (h : allCmdsL q rest = true) : all
       simp only [allCmdsL_block, Bool.and_eq_true] at h
       simpa [nextBlock] using h.1
 
-theorem HG.runNodes (S : HSpec q P) {c : Option ChildFn} (hc : ChildHG q P c) (ctx : Ctx) (nodes : List Node) (st : St)
-    (out : List Str) (hs : StOk q st) (hfs : FSOk q ctx.fs) (hnodes : allCmdsL q nodes = true) (hout : ∀ l ∈ out, P l) :
+theorem HG.runNodes (S : HSpec q P C) {c : Option ChildFn} (hc : ChildHG q P C c) (ctx : Ctx) (nodes : List Node) (st : St)
+    (out : List Str) (hs : StOk q st) (hfs : FSOk q ctx.fs) (hC : C ctx) (hnodes : allCmdsL q nodes = true) (hout : ∀ l ∈ out, P l) :
     HG q P (Duckling.runNodes c ctx nodes st out) := by
   induction nodes generalizing st out with
   | nil => exact HG.okSt _ _ rfl hs hout
@@ -825,7 +831,7 @@ theorem HG.runNodes (S : HSpec q P) {c : Option ChildFn} (hc : ChildHG q P c) (c
     | line l =>
       simp only [allCmdsL_line, Bool.and_eq_true] at hnodes
       unfold Duckling.runNodes
-      apply HG.bind (HG.stepCmd S hc _ _ _ _ hs hfs hnodes.1 (allCmdsL_nextBlock _ hnodes.2))
+      apply HG.bind (HG.stepCmd S hc _ _ _ _ hs hfs hC hnodes.1 (allCmdsL_nextBlock _ hnodes.2))
       intro r _ hrc hro
       have hout' : ∀ x ∈ out ++ r.out, P x := by
         intro x hx; rcases List.mem_append.mp hx with h | h; exact hout x h; exact hro x h
@@ -833,21 +839,21 @@ theorem HG.runNodes (S : HSpec q P) {c : Option ChildFn} (hc : ChildHG q P c) (c
       · exact ih _ _ hrc hnodes.2 hout'
       · exact HG.okSt _ _ rfl hrc hout'
 
-theorem exec_childHG (S : HSpec q P) (d : Nat) : ChildHG q P (some (exec d)) := by
+theorem exec_childHG (S : HSpec q P C) (d : Nat) : ChildHG q P C (some (exec d)) := by
   induction d with
   | zero =>
-    intro run hr code ctx st hcode hs hfs; cases hr
-    exact HG.runNodes S (c := none) (by intro run h; cases h) _ _ _ _ hs hfs hcode (by intro l hl; cases hl)
+    intro run hr code ctx st hC hcode hs hfs; cases hr
+    exact HG.runNodes S (c := none) (by intro run h; cases h) _ _ _ _ hs hfs hC hcode (by intro l hl; cases hl)
   | succ d ih =>
-    intro run hr code ctx st hcode hs hfs; cases hr
-    exact HG.runNodes S ih _ _ _ _ hs hfs hcode (by intro l hl; cases hl)
+    intro run hr code ctx st hC hcode hs hfs; cases hr
+    exact HG.runNodes S ih _ _ _ _ hs hfs hC hcode (by intro l hl; cases hl)
 
 /-- the hereditary invariant: any depth, any context, any state -/
-theorem exec_hereditary (S : HSpec q P) (d : Nat) (nodes : List Node) (ctx : Ctx) (st : St)
-    (hnodes : allCmdsL q nodes = true) (hs : StOk q st) (hfs : FSOk q ctx.fs) : HG q P (exec d nodes ctx st) := by
+theorem exec_hereditary (S : HSpec q P C) (d : Nat) (nodes : List Node) (ctx : Ctx) (st : St)
+    (hnodes : allCmdsL q nodes = true) (hs : StOk q st) (hfs : FSOk q ctx.fs) (hC : C ctx) : HG q P (exec d nodes ctx st) := by
   cases d with
-  | zero => exact HG.runNodes S (c := none) (by intro run h; cases h) _ _ _ _ hs hfs hnodes (by intro l hl; cases hl)
-  | succ d => exact HG.runNodes S (exec_childHG S d) _ _ _ _ hs hfs hnodes (by intro l hl; cases hl)
+  | zero => exact HG.runNodes S (c := none) (by intro run h; cases h) _ _ _ _ hs hfs hC hnodes (by intro l hl; cases hl)
+  | succ d => exact HG.runNodes S (exec_childHG S d) _ _ _ _ hs hfs hC hnodes (by intro l hl; cases hl)
 
 /-- a predicate on the text alone: the two notions agree -/
 theorem allCmdsL_of_text (p : Str → Bool) : ∀ (n : Nat) (nodes : List Node), sizeOf nodes ≤ n →
